@@ -745,3 +745,67 @@ def dispatch_verdicts(ctx, receiver_cls):
         bad = next((r for a, b, c, r in exits if (a, b, c) != want), None)
         out.append((label + (f": handler {first} reports" if first is not None else ": last_resort, re-raise"), f"dispatch m={rel} exact={x}", ok, msg, bad))
     return out
+
+
+# ---------------------------------------------------------------------------------------------
+# the cleanup drain: every popped cleanup is invoked exactly once, and nothing it raises ends the drain
+# ---------------------------------------------------------------------------------------------
+class DrainDomain(RunDomain):
+    def __init__(self, classes, receiver):
+        super().__init__(classes, receiver, record_stages=False)
+
+    def call(self, interp, call, st, fr):
+        if dotted(call.func) == "self.case._cleanups.pop":
+            out = []
+            for r in super().call(interp, call, st, fr):
+                if r.kind == "val":
+                    s = r.state
+                    if s.get("ev.pending", 0):
+                        s = s.set("ev.dropped", 1)
+                    r = Result(r.kind, r.value, bump(s.set("ev.pending", 1), "ev.pops"))
+                out.append(r)
+            return out
+        return super().call(interp, call, st, fr)
+
+    def _user_call(self, v, call, st):
+        if v[1] == "cleanup":
+            if not st.get("ev.pending", 0):
+                st = st.set("ev.twice", 1)
+            st = st.set("ev.pending", 0)
+        return super()._user_call(v, call, st)
+
+
+def drain_verdicts(ctx, receiver_cls):
+    """-> [(label, construct suffix, ok, message, Result)] over the exits of RunTest._run_cleanups."""
+    classes = ctx.classes
+    owner, f = classes.resolve_method(receiver_cls, "_run_cleanups")
+    if not isinstance(f, FUNC_TYPES):
+        raise AnalysisError("anchor vanished: RunTest._run_cleanups")
+    dom = DrainDomain(classes, receiver_cls)
+    interp = Interp(dom, max_depth=8)
+    res = interp.analyze(f, {"result": NOTNONE}, initial_state(), receiver=receiver_cls, name="_run_cleanups")
+    ctx.stats["states"] += interp.steps
+    for fn in interp.functions:
+        ctx.analysed(fn)
+    sigs = {}
+    for r in res:
+        s = r.state
+        framework = r.kind == "exc" and isinstance(r.value, tuple) and r.value and r.value[0] == "framework"
+        if framework:
+            continue
+        kind = "returns" if r.kind == "val" else ("a cleanup's exception escapes" if r.value == USER_EXC else f"raises {r.value!r}")
+        sigs.setdefault((kind, s.get("ev.pending", 0), s.get("ev.dropped", 0), s.get("ev.twice", 0), min(s.get("ev.pops", 0), 1)), r)
+    out = []
+    for (kind, pending, dropped, twice, pops), r in sorted(sigs.items(), key=repr):
+        problems = []
+        if kind != "returns":
+            problems.append("an exception raised by a cleanup (KeyboardInterrupt included) leaves the drain loop: the cleanups still registered never run")
+        if pending:
+            problems.append("a cleanup was popped but never invoked")
+        if dropped:
+            problems.append("a second cleanup is popped before the previous one was invoked")
+        if twice:
+            problems.append("a cleanup is invoked without having been popped (invoked twice)")
+        label = f"drain exit: {kind}" + (", cleanups popped" if pops else ", nothing popped") + ("" if not problems else " [" + "; ".join(p.split(':')[0] for p in problems) + "]")
+        out.append((label, f"drain {kind} pending={pending} dropped={dropped} twice={twice} pops={pops}", not problems, "; ".join(problems), r))
+    return out
